@@ -472,3 +472,54 @@ def check_tree(t):
     else:
         raise ValueError("node")
     return t
+
+
+def _is_quoted(tok):
+    return len(tok) >= 2 and tok[0] in "'\"" and tok[-1] == tok[0]
+
+
+def respell_tokens(toks, rng, *, outer=None):
+    """another spelling of the same token sequence: quote style, PEP 345 names, the spelling of names compared
+    with extra, redundant *outer* parentheses (white space is chosen when the tokens are joined)"""
+    toks = list(toks)
+    extra_lits = set()
+    opish = set(OPS) | {"in"}
+    for i, t in enumerate(toks):
+        if t != "extra":
+            continue
+        j = i + 1
+        if j < len(toks) and toks[j] == "not":
+            j += 1
+        if j < len(toks) and toks[j] in opish:
+            j += 1
+            if j < len(toks) and _is_quoted(toks[j]):
+                extra_lits.add(j)
+        j = i - 1
+        if j >= 0 and toks[j] in opish:
+            j -= 1
+            if j >= 0 and toks[j] == "not":
+                j -= 1
+            if j >= 0 and _is_quoted(toks[j]):
+                extra_lits.add(j)
+    for i, t in enumerate(toks):
+        if _is_quoted(t):
+            body = t[1:-1]
+            if i in extra_lits:
+                body = respell_name(rng, body)
+            toks[i] = _quote(rng, body, 0)
+        elif t in CANON_OF:
+            toks[i] = rng.choice(SPELLINGS.get(CANON_OF[t], [CANON_OF[t]]))
+    n = rng.choice([0, 0, 1, 2]) if outer is None else outer
+    return ["("] * n + toks + [")"] * n
+
+
+def grouping_form(t, top=True):
+    """the formula with its inner parentheses, outermost parentheses dropped, extra names canonical"""
+    if top:
+        while t[0] == "paren":
+            t = t[1]
+    if t[0] == "paren":
+        return ["paren", grouping_form(t[1], False)]
+    if t[0] == "atom":
+        return normal_form(t)
+    return [t[0], *[grouping_form(c, False) for c in t[1:]]]
